@@ -1267,7 +1267,8 @@ def dddmp_parser_model(P, R):
                 '(level, ELSE, THEN)')
 
 
-def _build_manager(order, tables, externals, keep_garbage=False):
+def _build_manager(order, tables, externals, keep_garbage=False,
+                   declared=None):
     """A consistent small manager over the variables `order` (level
     order) holding the functions `tables` (truth tables over sorted
     variable names), `externals` of them referenced from outside.
@@ -1317,6 +1318,10 @@ def _build_manager(order, tables, externals, keep_garbage=False):
                 ref[abs(v)] -= 1
                 ref[abs(w)] -= 1
                 changed = True
+    if declared is not None:
+        # the order in which the names were declared (and are listed in
+        # `vars`) is not the order of the levels, as after a swap
+        levels = {v: levels[v] for v in declared}
     env = {
         'self': interp.Sym('self'),
         'self.vars': dict(levels),
@@ -1892,7 +1897,8 @@ class _OrderModel:
         return {
             'swap': swap, 'var_at_level': var_at_level,
             'level_of_var': level_of_var,
-            '_levels': lambda m, c, a, k: interp.Sym('levels'),
+            '_levels': lambda m, c, a, k: {
+                i: set() for i in range(len(mdl.vars) + 1)},
             'collect_garbage': lambda m, c, a, k: None,
             'assert_consistent': lambda m, c, a, k: True,
             'getEffectiveLevel': lambda m, c, a, k: 100,
@@ -2003,7 +2009,7 @@ def reorder_model(P, R):
             for e in range(4):
                 mdl = _OrderModel(names, ['c', 'a', 'd', 'b'])
                 f, (out, m) = run(q, mdl, [mdl.handle(), s, e,
-                                           interp.Sym('levels')])
+                                           {i: set() for i in range(5)}])
                 want = [v for v in names if v != names[s]]
                 want.insert(e, names[s])
                 what = f'order {names}, _shift(start={s}, end={e})'
@@ -2040,8 +2046,8 @@ def reorder_model(P, R):
                         o.insert(k, var)
                         sz = _OrderModel(o, best).size()
                         least = sz if least is None else min(least, sz)
-                    f, (out, m) = run(q, mdl, [mdl.handle(), var,
-                                               interp.Sym('levels')])
+                    f, (out, m) = run(q, mdl, [
+                        mdl.handle(), var, {i: set() for i in range(5)}])
                     what = (f'order {list(start)} (size {before}; best '
                             f'order {list(best)}), sifting {var}')
                     if mdl.complaints:
@@ -2138,8 +2144,10 @@ def traversal_model(P, R):
                 todo += [abs(succ[x][1]), abs(succ[x][2])]
         return seen
     try:
-        for order in (['a', 'b', 'c'], ['c', 'a', 'b']):
-            base, ext = _build_manager(order, funcs, range(len(funcs)))
+        for order, declared in ((['a', 'b', 'c'], None),
+                                (['c', 'a', 'b'], ['a', 'b', 'c'])):
+            base, ext = _build_manager(order, funcs, range(len(funcs)),
+                                       declared=declared)
             succ = base['self._succ']
             by_level = base['self._level_to_var']
 
@@ -2307,3 +2315,322 @@ def translator_model(P, R):
                 'manager of this call whatever an earlier call left '
                 'behind; manager dropped and LR stacks restarted after a '
                 'successful parse; result and exceptions passed on')
+
+
+def _object_manager(env):
+    """The manager of `_build_manager` as an object that keeps its
+    attributes itself (for module-level functions that take it as an
+    argument)."""
+    attrs = {k[5:]: v for k, v in env.items() if k.startswith('self.')}
+    attrs.setdefault('roots', set())
+    return interp.Sym('bdd', attrs)
+
+
+def _tt_obj(obj, u, names):
+    return _tt_of({'self._level_to_var': obj.attrs['_level_to_var'],
+                   'self._succ': obj.attrs['_succ']}, u, names)
+
+
+def operations_model(P, R, which=None):
+    """The operations of dd.bdd.BDD interpreted (with everything they
+    call) on small managers and compared, reference by reference, with
+    the truth table the property gives for the result:
+    `ite` (C01), `quantify` (C03), `compose` / `cofactor` / `rename`
+    behind `let` (C04), `image` / `preimage` (C13).  After each call the
+    manager must also be reduced and consistent (C02), and the result
+    must be the reference of its function (canonicity: equal functions,
+    equal references)."""
+    import itertools
+    which = which or ('ite', 'quantify', 'let', 'image')
+    stubs = ClassStubs(P, 'dd.bdd.BDD', extra={
+        '_request_reordering': lambda m, c, a, k: None})
+    resolver = interp.ModuleEnv(P, 'dd.bdd', stubs)
+    problems = dict()
+    counts = dict()
+
+    def table_of(names, fn):
+        rows = itertools.product((False, True), repeat=len(names))
+        return tuple(bool(fn(**dict(zip(names, r)))) for r in rows)
+
+    def canonical_ref(obj, names, want):
+        """The reference in the manager that denotes `want`, if any."""
+        for u in obj.attrs['_succ']:
+            for s in (1, -1):
+                if _tt_obj(obj, s * u, names) == want:
+                    return s * u
+        return None
+
+    def check(key, what, obj, ext, names, out, want):
+        counts[key[1]] = counts.get(key[1], 0) + 1
+        if out[0] != 'return' or not isinstance(out[1], int) or \
+                isinstance(out[1], bool) or abs(out[1]) not in \
+                obj.attrs['_succ']:
+            problems.setdefault(key + ('raises',), (
+                f'{what}: {out[0]} {out[1]!r}'))
+            return
+        got = _tt_obj(obj, out[1], names)
+        if got != want:
+            problems.setdefault(key + ('wrong-function',), (
+                f'{what}: the result {out[1]} denotes '
+                f'{"".join("1" if b else "0" for b in (got or ()))}, '
+                f'expected {"".join("1" if b else "0" for b in want)} '
+                f'(rows in the order of {names}; nodes '
+                f'{obj.attrs["_succ"]})'))
+            return
+        env = {f'self.{k}': v for k, v in obj.attrs.items()}
+        ext2 = dict(ext)
+        bad = _manager_complaints(env, ext2)
+        if bad:
+            problems.setdefault(key + ('tables',), f'{what}: {bad}')
+            return
+        first = canonical_ref(obj, names, want)
+        if first != out[1]:
+            problems.setdefault(key + ('not-canonical',), (
+                f'{what}: the result {out[1]} and the reference {first} '
+                'denote the same function'))
+
+    def fresh(base):
+        obj = _object_manager(copy.deepcopy(
+            {k: v for k, v in base.items() if k != 'self'}))
+        return obj
+
+    def call(f, obj, args, kw=None, method=True):
+        env = {'self': obj} if method else {}
+        ps = [p for p in f.params if p != 'self']
+        a = f.node.args
+        defaults = dict(zip(
+            [x.arg for x in (a.posonlyargs + a.args)][
+                len(a.posonlyargs + a.args) - len(a.defaults):],
+            a.defaults))
+        for p in ps:
+            if p in defaults:
+                env[p] = interp.Machine({}, None, resolver).ev(defaults[p])
+        env.update(zip(ps, args))
+        env.update(kw or {})
+        return interp.run_function(f.node, env, stubs, resolver)
+    try:
+        names = ['a', 'b', 'c']
+        fns = [lambda a, b, c: a and b, lambda a, b, c: a != c,
+               lambda a, b, c: (b if a else c), lambda a, b, c: not c]
+        tts = [table_of(names, f) for f in fns]
+        for order in (['a', 'b', 'c'], ['c', 'a', 'b']):
+            base, ext = _build_manager(order, tts, range(len(tts)))
+            roots = sorted(ext)
+            refs = [1, -1] + [s * u for u in roots for s in (1, -1)]
+            tt = {u: _tt_of(base, u, names) for u in refs}
+            for u in (2, 3):
+                if u in base['self._succ']:
+                    tt[u] = _tt_of(base, u, names)
+            if 'ite' in which:
+                f = P.func('dd.bdd.BDD.ite')
+                for g in refs:
+                    for u in refs[1:7]:
+                        for v in refs[2:8]:
+                            obj = fresh(base)
+                            out, _ = call(f, obj, [g, u, v])
+                            want = tuple(
+                                (y if x else z) for x, y, z in
+                                zip(tt[g], tt[u], tt[v]))
+                            check((f, 'ite'), f'order {order}: ite({g}, '
+                                  f'{u}, {v})', obj, ext, names, out, want)
+            if 'quantify' in which:
+                f = P.func('dd.bdd.BDD.quantify')
+                rows = list(itertools.product((False, True), repeat=3))
+                for u in refs:
+                    for k in range(4):
+                        for qv in itertools.combinations(names, k):
+                            for forall in (False, True):
+                                obj = fresh(base)
+                                out, _ = call(f, obj, [u, set(qv), forall])
+                                want = []
+                                for r in rows:
+                                    vals = []
+                                    for bits in itertools.product(
+                                            (False, True), repeat=len(qv)):
+                                        d = dict(zip(names, r))
+                                        d.update(zip(qv, bits))
+                                        vals.append(tt[u][rows.index(
+                                            tuple(d[n] for n in names))])
+                                    want.append(all(vals) if forall
+                                                else any(vals))
+                                check((f, 'quantify'),
+                                      f'order {order}: quantify({u}, '
+                                      f'{set(qv) or "{}"}, forall={forall})',
+                                      obj, ext, names, out, tuple(want))
+            if 'let' in which:
+                rows = list(itertools.product((False, True), repeat=3))
+                f = P.func('dd.bdd.BDD.let')
+                subs = []
+                for x in names:
+                    # (also the constants and the low node numbers: a
+                    # replacement whose number equals a level must not
+                    # be mistaken for one)
+                    for g in refs[2:8] + [1, -1, 2, 3]:
+                        if abs(g) in base['self._succ']:
+                            subs.append({x: g})
+                subs += [{'a': refs[2], 'b': refs[5]},
+                         {'c': refs[3], 'a': refs[6]},
+                         {'a': refs[4], 'b': refs[2], 'c': refs[7]}]
+                for u in refs[2:]:
+                    for d in subs:
+                        obj = fresh(base)
+                        out, _ = call(f, obj, [dict(d), u])
+                        want = []
+                        for r in rows:
+                            val = dict(zip(names, r))
+                            new = dict(val)
+                            for x, g in d.items():
+                                new[x] = tt[g][rows.index(r)]
+                            want.append(tt[u][rows.index(
+                                tuple(new[n] for n in names))])
+                        check((f, 'compose'), f'order {order}: let({d}, '
+                              f'{u}) with function values', obj, ext,
+                              names, out, tuple(want))
+                    for k in (1, 2):
+                        for xs in itertools.combinations(names, k):
+                            for bits in itertools.product(
+                                    (False, True), repeat=k):
+                                d = dict(zip(xs, bits))
+                                obj = fresh(base)
+                                out, _ = call(f, obj, [dict(d), u])
+                                want = []
+                                for r in rows:
+                                    val = dict(zip(names, r))
+                                    val.update(d)
+                                    want.append(tt[u][rows.index(
+                                        tuple(val[n] for n in names))])
+                                check((f, 'cofactor'),
+                                      f'order {order}: let({d}, {u})',
+                                      obj, ext, names, out, tuple(want))
+        if 'image' in which:
+            names = ['x', 'xp', 'y', 'yp']
+            rows = list(itertools.product((False, True), repeat=4))
+            tfn = [lambda x, xp, y, yp: xp == (x and y),
+                   lambda x, xp, y, yp: (xp != x) and (yp == y),
+                   lambda x, xp, y, yp: x or yp,
+                   lambda x, xp, y, yp: True,
+                   lambda x, xp, y, yp: x and not y,
+                   lambda x, xp, y, yp: x != y,
+                   lambda x, xp, y, yp: xp and not yp,
+                   lambda x, xp, y, yp: xp or (x and yp)]
+            tts = [table_of(names, f) for f in tfn]
+            img = P.func('dd.bdd.image')
+            pre = P.func('dd.bdd.preimage')
+
+            def quant(t, qv, forall):
+                out = []
+                for r in rows:
+                    vals = []
+                    for bits in itertools.product(
+                            (False, True), repeat=len(qv)):
+                        d = dict(zip(names, r))
+                        d.update(zip(qv, bits))
+                        vals.append(t[rows.index(
+                            tuple(d[n] for n in names))])
+                    out.append(all(vals) if forall else any(vals))
+                return tuple(out)
+
+            def ren(t, mp):
+                # the function that reads, for each renamed variable,
+                # the value of the variable it is renamed to
+                out = []
+                for r in rows:
+                    d = dict(zip(names, r))
+                    src = dict(d)
+                    for old, new in mp.items():
+                        src[old] = d[new]
+                    out.append(t[rows.index(
+                        tuple(src[n] for n in names))])
+                return tuple(out)
+            for order in (['x', 'xp', 'y', 'yp'], ['y', 'yp', 'xp', 'x'],
+                          ['x', 'y', 'yp', 'xp']):
+                base, ext = _build_manager(order, tts, range(len(tts)))
+                ref = dict()
+                for u in list(base['self._succ']) + [
+                        -x for x in base['self._succ']]:
+                    ref.setdefault(_tt_of(base, u, names), u)
+                T = [ref[t] for t in tts]
+                tt = {u: _tt_of(base, u, names) for u in T + [1, -1]}
+                cases = [
+                    # (trans, source, rename, qvars)
+                    (T[0], T[4], {'xp': 'x'}, ['x', 'y']),
+                    (T[1], T[5], {'xp': 'x', 'yp': 'y'}, ['x', 'y']),
+                    (T[1], T[4], {'xp': 'x', 'yp': 'y'}, ['x', 'y']),
+                    (T[3], T[6], {'xp': 'x', 'yp': 'y'}, ['x', 'y']),
+                    (T[2], T[7], {'xp': 'x', 'yp': 'y'}, ['x', 'y']),
+                    (T[0], 1, {'xp': 'x'}, ['x']),
+                ]
+                for trans, source, mp, qv in cases:
+                    for forall in (False, True):
+                        obj = fresh(base)
+                        out, _ = call(img, obj, [
+                            trans, source, dict(mp), list(qv), obj,
+                            forall], method=False)
+                        conj = tuple(p and q for p, q in
+                                     zip(tt[trans], tt[source]))
+                        if forall:
+                            conj = tuple((not q) or p for p, q in
+                                         zip(tt[trans], tt[source]))
+                            continue
+                        want = ren(quant(conj, qv, False), mp)
+                        check((img, 'image'),
+                              f'order {order}: image(trans={trans}, '
+                              f'source={source}, rename={mp}, qvars={qv})',
+                              obj, ext, names, out, want)
+                pcases = [
+                    (T[0], T[4], {'x': 'xp'}, ['xp']),
+                    (T[1], T[5], {'x': 'xp', 'y': 'yp'}, ['xp', 'yp']),
+                    (T[1], T[4], {'x': 'xp', 'y': 'yp'}, ['xp', 'yp']),
+                    (T[0], T[4], {'x': 'xp'}, ['x']),
+                    (T[1], T[5], {'x': 'xp', 'y': 'yp'}, ['x', 'xp']),
+                    (T[2], T[4], {'x': 'xp', 'y': 'yp'}, ['yp', 'xp']),
+                ]
+                # (preimage: adjacency of each pair is a documented
+                # precondition; image accepts any order)
+                lv = {v: k for k, v in enumerate(order)}
+                for trans, target, mp, qv in pcases:
+                    if any(abs(lv[a] - lv[b]) != 1 for a, b in mp.items()):
+                        continue
+                    obj = fresh(base)
+                    out, _ = call(pre, obj, [
+                        trans, target, dict(mp), list(qv), obj, False],
+                        method=False)
+                    rt = ren(tt[target], mp)
+                    conj = tuple(p and q for p, q in zip(tt[trans], rt))
+                    want = quant(conj, qv, False)
+                    check((pre, 'preimage'),
+                          f'order {order}: preimage(trans={trans}, '
+                          f'target={target}, rename={mp}, qvars={qv})',
+                          obj, ext, names, out, want)
+    except interp.Unknown as e:
+        R.undecided('R-OPTAB', 'dd.bdd.BDD (operations)',
+                    'operations model', str(e))
+        return None
+    rule_of = {'ite': 'R-OPTAB', 'quantify': 'R-ARGS', 'compose': 'R-ROLE',
+               'cofactor': 'R-ROLE', 'image': 'R-REBUILD',
+               'preimage': 'R-REBUILD'}
+    for (f, op, sub), msg in sorted(problems.items(),
+                                    key=lambda kv: (kv[0][1], kv[0][2])):
+        R.violation(rule_of[op], f'{op}-{sub}', f.qualname, op, msg,
+                    unit=f.unit.rel, line=f.lineno)
+    total = sum(counts.values())
+    if not problems:
+        R.holds('R-OPTAB', 'dd.bdd.BDD (operations)',
+                f'operations model ({total} calls: ' + ', '.join(
+                    f'{k} {v}' for k, v in sorted(counts.items()))
+                + '): each result denotes the function the property '
+                'gives, is the canonical reference of it, and leaves the '
+                'manager reduced and consistent')
+    return total
+
+
+def r_operations(P, R):
+    """The operations model, restricted to what the property speaks
+    about (findings reach the other properties through their scope)."""
+    which = {'C01': ('ite',), 'C03': ('quantify',), 'C04': ('let',),
+             'C13': ('image',), 'C02': ('ite', 'quantify', 'let', 'image'),
+             }.get(R.prop, ('ite',))
+    n = operations_model(P, R, which)
+    if n is not None:
+        R.floor(f'R-OPTAB calls of the operations model ({R.prop})', n, 30)
+r_operations.NAME = 'R-OPTAB(operations model)'
